@@ -3,6 +3,7 @@ from dataclasses import dataclass
 from functools import cached_property
 
 from predicate.predicate import Predicate
+from predicate.this_predicate import is_library_frame
 
 
 @dataclass
@@ -30,6 +31,8 @@ class LazyPredicate[T](Predicate[T]):
 
 
 def find_predicate_by_ref(frame, ref: str) -> Predicate | None:
+    if is_library_frame(frame):
+        return find_predicate_by_ref(frame.f_back, ref) if frame.f_back else None
     for key, value in frame.f_locals.items():
         if key == ref and key != "self" and isinstance(value, Predicate):
             return value
